@@ -464,6 +464,25 @@ def run(case, out):
                     out.fail("c14.collapse_len_depends_on_limit", {"limit": lim, "len_limited": len(rl), "len_unlimited": len(rc),
                                                                    "matched": len(base), "kept": len(exp)})
                     return
+        # --- collapse on a field that some documents lack, with and without a column: same survivors, and the same
+        # count whatever the limit
+        rc_col = s.search(q, limit=None, collapse="tx", collapse_limit=1)
+        rc_post = s.search(q, limit=None, collapse="tx2", collapse_limit=1)
+        if keys_of(rc_col) != keys_of(rc_post) or len(rc_col) != len(rc_post):
+            out.fail("c14.collapse_column_vs_postings", {"column": keys_of(rc_col)[:12], "postings": keys_of(rc_post)[:12],
+                                                         "len": [len(rc_col), len(rc_post)]})
+            return
+        for lim in case["limits"][:2]:
+            for f in ("tx", "tx2", "nm"):
+                full = rc_col if f == "tx" else rc_post if f == "tx2" else s.search(q, limit=None, collapse=f, collapse_limit=1)
+                rl = s.search(q, limit=lim, collapse=f, collapse_limit=1)
+                if keys_of(rl) != keys_of(full)[:lim]:
+                    out.fail("c14.collapse_with_limit_hits", {"field": f, "limit": lim, "got": keys_of(rl), "expected": keys_of(full)[:lim]})
+                    return
+                if len(rl) != len(full):
+                    out.fail("c14.collapse_len_depends_on_limit", {"field": f, "limit": lim, "len_limited": len(rl),
+                                                                   "len_unlimited": len(full), "matched": len(base)})
+                    return
     out.nontrivial = nseg >= 2 and any(ties_and_missing(docs, f) for f in ("tx", "nm", "dt"))
     out.label("segments_%d" % min(nseg, 4), "q_" + qname)
     if case["bare_first"]:
